@@ -156,7 +156,7 @@ def worker_main(prop, tier, vseed, start, count, stride, wall_s):
             except Exception as e:
                 pr = {"probe-error": 1}
             for k, v in pr.items():
-                if v:
+                if v and not k.startswith("_"):
                     st["probes"][k] = st["probes"].get(k, 0) + int(v)
             nt = bool(pr.get("_nontrivial", sim.preemptions > 0))
             if nt:
